@@ -97,8 +97,38 @@ def runall(tier="quick"):
     print(f"{len(names) - len(missed)} of {len(names)} seeded changes caught by the {tier} check of their property; missed: {missed}")
 
 
+def run_in_worktree(patch, props, tier="quick", label=None, expect="caught"):
+    """Applies a patch in a fresh scratch worktree of /repo (never /repo itself), runs the given checks against that
+    worktree (VERIF_REPO), removes the worktree. Returns {prop: verdict}."""
+    label = label or os.path.basename(os.path.dirname(os.path.abspath(patch)))
+    wt = f"/tmp/vseed/{label}-{os.getpid()}"
+    os.makedirs("/tmp/vseed", exist_ok=True)
+    sh(f"git -C /repo worktree add -q --detach {wt} HEAD")
+    out = {}
+    try:
+        rc, o = sh(f"git apply {os.path.abspath(patch)}", cwd=wt)
+        assert rc == 0, o
+        env = f"VERIF_REPO={wt}"
+        for p in props:
+            rc, o = sh(f"{env} ./check {p} {tier} 2>&1", cwd=V, timeout=7200)
+            viol = [l for l in o.splitlines() if l.startswith("VIOLATION")]
+            why = [l.strip() for l in o.splitlines() if l.strip().startswith("why:")]
+            out[p] = {"rc": rc, "violations": len(viol), "why": why[:2]}
+            print(f"{label}: {p} {tier} -> rc={rc} violations={len(viol)} {why[:1]}", flush=True)
+            if rc == 2:
+                print(o[-1200:])
+    finally:
+        import hashlib
+        sh(f"git -C /repo worktree remove --force {wt}")
+        shutil.rmtree(os.path.join(V, "work", "harness-" + hashlib.sha1(wt.encode()).hexdigest()[:10]), ignore_errors=True)
+    return out
+
+
 if __name__ == "__main__":
-    if sys.argv[1] == "runall":
+    if sys.argv[1] == "wt":
+        # seed_eval.py wt <patch.diff> <tier> <prop> [<prop> ...]
+        run_in_worktree(sys.argv[2], sys.argv[4:], sys.argv[3])
+    elif sys.argv[1] == "runall":
         runall(sys.argv[2] if len(sys.argv) > 2 else "quick")
     elif sys.argv[1] == "confirm":
         sys.exit(confirm(*sys.argv[2:5]))
